@@ -9,7 +9,7 @@ from c16 import run_replay, rust_str
 
 ZD_RS = 'crates/dns-types/src/zones/deserialise.rs'
 HD_RS = 'crates/dns-types/src/hosts/deserialise.rs'
-ZONE_ALPHABET = [0x20, 0x0a, 0x3b, 0x28, 0x29, 0x22, 0x5c, 0x2e, 0x40, 0x2a, 0x24, 0x30, 0x32, 0x39, 0x41, 0x49, 0x4e, 0x61, 0xe9, 0x1F600]
+ZONE_ALPHABET = [0x20, 0x0a, 0x3b, 0x28, 0x29, 0x22, 0x5c, 0x2e, 0x40, 0x2a, 0x24, 0x30, 0x32, 0x39, 0x41, 0x49, 0x4e, 0x53, 0x61, 0xe9, 0x1F600]
 HOSTS_ALPHABET = [0x20, 0x09, 0x0a, 0x0d, 0x23, 0x25, 0x2e, 0x3a, 0x31, 0x61, 0x42, 0xe9, 0x1F600]
 
 
@@ -99,7 +99,7 @@ class LongTokens(Harness):
     def finding_key(self, v): return f"C17 long tokens {v.get('tag')}"
 
 
-VOCAB = ['IN', 'A', 'NS', 'SOA', 'TXT', 'MX', '7', '99999999999', '@', '*', '*.x', 'a', 'a.', '1.2.3.4', '"q r"', '\\000', '$ORIGIN', '$INCLUDE', 'CH', 'TYPE65280']
+VOCAB = ['IN', 'A', 'NS', 'SOA', 'TXT', 'MX', '7', '99999999999', '@', '*', '*.x', 'a', 'a.', '1.2.3.4', '"q r"', '\\000', '$ORIGIN', '$INCLUDE', 'CH', 'TYPE65280', '""']
 
 
 class TokenSeq(Harness):
@@ -129,7 +129,7 @@ def harnesses(world, tier, seed):
     nz = 6 if q else 7; nh = 7 if q else 9
     hs = [
         Total(name='zone-text', which='zone', n=nz, varlen=True, alphabet=ZONE_ALPHABET,
-              bounds={'chars': f'0..{nz}', 'alphabet': 'each char symbolic over {space, \\n, ; ( ) " \\ . @ * $ 0 2 9 A I N a, U+00E9 (2-byte), U+1F600 (4-byte)}'}, expected_classes=('Ok', 'Err')),
+              bounds={'chars': f'0..{nz}', 'alphabet': 'each char symbolic over {space, \\n, ; ( ) " \\ . @ * $ 0 2 9 A I N S a, U+00E9 (2-byte), U+1F600 (4-byte)}'}, expected_classes=('Ok', 'Err')),
         Total(name='hosts-text', which='hosts', n=nh, varlen=True, alphabet=HOSTS_ALPHABET,
               bounds={'chars': f'0..{nh}', 'alphabet': 'each char symbolic over {space, tab, \\n, \\r, #, %, ., :, 1, a, B, U+00E9, U+1F600}'}, expected_classes=('Ok', 'Err')),
         TokenSeq(name='token-sequences', k=3 if q else 4, vocab=VOCAB, bounds={'tokens': '0..%d, each symbolic over a vocabulary of %d keywords / numbers / names / strings' % (3 if q else 4, len(VOCAB)), 'prefix': 'none | $ORIGIN | $ORIGIN + one record'}, expected_classes=('Ok', 'Err')),
